@@ -34,6 +34,7 @@ import (
 func init() {
 	Registry["C16"] = C16
 	ChildModes["C16-child"] = c16Child
+	ChildModes["C16-dump"] = c16Dump
 }
 
 const (
@@ -379,7 +380,7 @@ func c16TraceSite(out string, overflow bool) string {
 			if strings.HasPrefix(l, "\t") || !strings.Contains(l, "cedar-policy/cedar-go/") {
 				continue
 			}
-			f := clean(l)
+			f := c16NormSite(clean(l))
 			if !overflow {
 				return f
 			}
@@ -650,7 +651,16 @@ func (r *c16Runner) runBatch(w *mon.W, cases []c16Case) {
 		if !crash.Timeout && r.seen[cs.Stream+"|"+fsig] >= c16StormCap {
 			r.storm[cs.Stream] = fsig
 		}
+		_, storm := r.storm[cs.Stream]
 		r.mu.Unlock()
+		if storm {
+			rest := len(pending) - crash.CI - 1
+			w.Inconclusive(fmt.Sprintf("rest of a batch skipped: %d fatal crashes with signature %q in stream %s", c16StormCap, fsig, cs.Stream))
+			w.CountN(cs.Stream+": cases skipped after a fatal-crash storm", int64(rest))
+			w.Count(cs.Stream + ": cases abandoned after fatal crashes")
+			r.finish(w, &cs, s)
+			return
+		}
 		next := append([]c16Case{}, pending[crash.CI+1:]...)
 		cont := cs
 		cont.From, cont.Only = crash.Step+1, false
@@ -688,7 +698,31 @@ func c16Isolate(cs *c16Case, st c16Step) c16Case {
 // c16Sig: crash site first (replay file names are cut after 60 characters), then the kind of
 // observation and the API call through which it was reached.
 func c16Sig(call, kind, site string) string {
-	return strings.TrimPrefix(site, "x/exp/schema/") + " " + kind + " via " + call
+	return strings.TrimPrefix(c16NormSite(site), "x/exp/schema/") + " " + kind + " via " + call
+}
+
+// c16NormSite reduces a frame name to package.Function or package.(Receiver).Method: closure
+// and range-over-func suffixes (".func1", ".ImmutableMapSet[...].All.func1") are dropped.
+func c16NormSite(site string) string {
+	dir, rest := "", site
+	if i := strings.LastIndex(site, "/"); i >= 0 {
+		dir, rest = site[:i+1], site[i+1:]
+	}
+	i := strings.Index(rest, ".")
+	if i < 0 {
+		return site
+	}
+	pkg, fn := rest[:i+1], rest[i+1:]
+	recv := ""
+	if strings.HasPrefix(fn, "(") {
+		if j := strings.Index(fn, ")."); j >= 0 {
+			recv, fn = fn[:j+2], fn[j+2:]
+		}
+	}
+	if j := strings.IndexAny(fn, ".[-"); j >= 0 {
+		fn = fn[:j]
+	}
+	return dir + pkg + recv + fn
 }
 
 // report records a violation; phase (if non-empty) replaces the call name in the signature
@@ -1104,8 +1138,8 @@ func C16(c *mon.Ctx) {
 	c.Rule = "case = (schema, artefacts); every step is one call of resolved.Resolve (schema AST built directly, and the same schema sent as JSON through schema.UnmarshalJSON) " +
 		"or of validate.Policy (strict and permissive; policy built with the x/exp/ast builders and the same policy decoded from harness-written JSON), validate.Entity, validate.Entities, validate.Request against the resolved schema. " +
 		"Oracle: the call returns (value or error); a recovered panic, a fatal runtime error of the child process (stack overflow) or a watchdog hit that reproduces when the step is re-run alone is a violation. " +
-		"Families: entity-parent digraphs, common-type reference digraphs and action-group digraphs over 3 names are enumerated exhaustively (512 graphs each x namespace/reference-style variants incl. undefined references, enums, shadowing); " +
-		"an exhaustive operator x operand-position x literal-kind table (set/record/extension *value* literals as produced by ast.Value and JSON {\"Value\":..}); a fixed list of special schemas; random larger schemas with random policies/entities/requests on top. " +
+		"Families: entity-parent digraphs, common-type reference digraphs and action-group digraphs over 3 names are enumerated exhaustively (512 graphs each x namespace layouts with 0-3 segment, mixed and prefix-related namespaces x reference spellings unqualified / fully qualified / first-segment-dropped, plus undefined references, enums, shadowing; quick runs a selection of the (layout, spelling) pairs for entity and action graphs and all of them for common types, thorough all of them with every body shape); " +
+		"an exhaustive operator x operand-position x operand-kind table (set/record/extension *value* literals as produced by ast.Value and JSON {\"Value\":..}, and operands whose type is a union of 2-3 entity types that differ in tags/attributes/enum-ness, in both member orders); a fixed list of special schemas; random larger schemas with random policies/entities/requests on top. " +
 		"distinct_nontrivial = distinct (schema, artefacts) renderings for which Resolve returned and, if it returned a schema, at least one validation call returned."
 	c.Assume = []string{
 		"inputs are well-formed Go values: no nil ast.IsType / nil expression nodes / zero-valued ast.Policy scopes (those cannot come out of the parsers or builders)",
@@ -1131,25 +1165,68 @@ func C16(c *mon.Ctx) {
 
 	// streams run in alphabetical order so that the smallest (stream, index) witness of a
 	// signature is met first
-	r.stream("action-graphs", 512*c16ActionGraphVariants, 32, c16ActionGraphCase)
-	r.stream("common-type-graphs", 512*c16CommonGraphVariants, 64, c16CommonGraphCase)
-	r.stream("entity-graphs", 512*c16EntityGraphVariants, 32, c16EntityGraphCase)
+	av, cv, ev := c16ActionVariants(c.Thorough()), c16CommonVariants(c.Thorough()), c16EntityVariants(c.Thorough())
+	r.stream("action-graphs", 512*len(av), 128, func(i int) c16Case { return c16ActionGraphCase(i, av) })
+	r.stream("common-type-graphs", 512*len(cv), 256, func(i int) c16Case { return c16CommonGraphCase(i, cv) })
+	r.stream("entity-graphs", 512*len(ev), 96, func(i int) c16Case { return c16EntityGraphCase(i, ev) })
 	r.stream("literal-table", c16LiteralTableN(), 4, c16LiteralTableCase)
 	depth := 3
 	if c.Thorough() {
 		depth = 5
 	}
-	r.stream("random", c.N(6000, 250000), 48, func(i int) c16Case { return c16RandomCase(c.Rand("random", i), i, depth) })
+	r.stream("random", c.N(6000, 250000), 125, func(i int) c16Case { return c16RandomCase(c.Rand("random", i), i, depth) })
 	special := c16SpecialCases()
 	r.stream("special", len(special), 1, func(i int) c16Case { return special[i] })
 
 	c.Extra["exhaustive_families"] = map[string]any{
-		"action-graphs":      fmt.Sprintf("all 512 memberOf digraphs over 3 actions x %d variants", c16ActionGraphVariants),
-		"common-type-graphs": fmt.Sprintf("all 512 reference digraphs over 3 common types x %d (shape, layout) variants", c16CommonGraphVariants),
-		"entity-graphs":      fmt.Sprintf("all 512 parent digraphs over 3 entity types x %d variants", c16EntityGraphVariants),
+		"action-graphs":      fmt.Sprintf("all 512 memberOf digraphs over 3 actions x %d (namespace layout, parent spelling, extra) variants", len(av)),
+		"common-type-graphs": fmt.Sprintf("all 512 reference digraphs over 3 common types x %d (namespace layout, reference spelling, body shape) variants", len(cv)),
+		"entity-graphs":      fmt.Sprintf("all 512 parent digraphs over 3 entity types x %d (namespace layout, reference spelling, extra) variants", len(ev)),
 		"literal-table":      fmt.Sprintf("%d operator/position templates x %d operand kinds", c16LiteralTableN(), len(c16Holes())),
 	}
 	c.Extra["child_processes_started"] = atomic.LoadInt64(&r.seq)
 	c.Extra["stack_limit_bytes"] = c16MaxStack
 	c.Extra["watchdog_seconds"] = c16Watchdog.Seconds()
+}
+
+// c16Dump: `check C16-dump <stream> <from> <to> <file>` writes the cases [from,to) of a stream
+// (seed from VERIF_SEED, default 1) as a case file for `check C16-child <file> <events>`;
+// a debugging aid for reproducing and profiling single batches by hand.
+func c16Dump(args []string) int {
+	if len(args) < 4 {
+		fmt.Fprintln(os.Stderr, "usage: C16-dump <stream> <from> <to> <file>")
+		return 3
+	}
+	from, _ := strconv.Atoi(args[1])
+	to, _ := strconv.Atoi(args[2])
+	var seed uint64 = 1
+	if s := os.Getenv("VERIF_SEED"); s != "" {
+		if v, err := strconv.ParseUint(s, 10, 64); err == nil {
+			seed = v
+		}
+	}
+	c := mon.New("C16", "quick", seed)
+	special := c16SpecialCases()
+	gens := map[string]func(i int) c16Case{
+		"action-graphs":      func(i int) c16Case { return c16ActionGraphCase(i, c16ActionVariants(false)) },
+		"common-type-graphs": func(i int) c16Case { return c16CommonGraphCase(i, c16CommonVariants(false)) },
+		"entity-graphs":      func(i int) c16Case { return c16EntityGraphCase(i, c16EntityVariants(false)) },
+		"literal-table":      c16LiteralTableCase, "special": func(i int) c16Case { return special[i] },
+		"random": func(i int) c16Case { return c16RandomCase(c.Rand("random", i), i, 3) },
+	}
+	g, ok := gens[args[0]]
+	if !ok {
+		fmt.Fprintln(os.Stderr, "unknown stream", args[0])
+		return 3
+	}
+	var cases []c16Case
+	for i := from; i < to; i++ {
+		cases = append(cases, g(i))
+	}
+	b, _ := json.Marshal(cases)
+	if err := os.WriteFile(args[3], b, 0o644); err != nil {
+		fmt.Fprintln(os.Stderr, err)
+		return 3
+	}
+	return 0
 }
